@@ -60,6 +60,16 @@ def events(arm_body, env, spec):
     return out
 
 
+def _fresh_key(table, key):
+    """A second arm with the same pattern shape (the later one is shadowed or separated by guards) keeps its own entry."""
+    if key not in table:
+        return key
+    i = 2
+    while "%s #%d" % (key, i) in table:
+        i += 1
+    return "%s #%d" % (key, i)
+
+
 def extract(facts, fn, spec, pick=None, tuple_pos=None):
     h = facts.hir(fn)
     if h is None:
@@ -79,7 +89,7 @@ def extract(facts, fn, spec, pick=None, tuple_pos=None):
         env.absorb({"k": "Block", "stmts": [s for s in pre.get("stmts", []) if H.kind(s) == "Let"], "expr": None})
         env.bind_pat(A.strip_or(a["pat"]))
         env.absorb(a["body"])
-        key = A.pat_shape(a["pat"])
+        key = _fresh_key(table, A.pat_shape(a["pat"]) + (" if .." if a.get("guard") is not None and spec.get("guards") else ""))
         table[key] = {"events": events(a["body"], env, spec), "ln": a["ln"]}
     return table
 
@@ -275,6 +285,46 @@ GOLDEN["golden_graph.json"] = (GRAPH_SPEC, [
 ])
 
 
+COVERAGE_SPEC = {
+    "calls": [("uncovered", r"CoverageMatrix::<'a>::uncovered$"), ("uncovered_finite", r"::uncovered_finite$"),
+              ("uncovered_default", r"::uncovered_default$"), ("constructors", r"HeadSpace::constructors$"),
+              ("head_space", r"MatrixPattern::head_space$"), ("specialize", r"Constructor::specialize$"),
+              ("rebuild", r"Constructor::rebuild$"), ("arity", r"Constructor::arity$"), ("from_typed", r"MatrixPattern::from_typed$"),
+              ("validate_match", r"::validate_match$"), ("validate_comatch", r"::validate_comatch$"),
+              ("validate_pattern_matrix", r"::validate_pattern_matrix$"), ("validate_computation", r"::validate_computation$"),
+              ("is_empty", r"::is_empty$"), ("len", r"::len$"), ("truncate", r"::truncate$"), ("take", r"::take$"), ("skip", r"::skip$"),
+              ("first", r"::first$"), ("next", r"::next$"), ("filter_map", r"::filter_map$"), ("flat_map", r"::flat_map$"),
+              ("chain", r"::chain$"), ("once", r"sources::once::once$"), ("then_some", r"::then_some$"), ("then", r"bool>::then$|::then$"),
+              ("or_else", r"::or_else$"), ("split_off", r"::split_off$"), ("rev", r"::rev$"), ("fold", r"::fold$"),
+              ("set.insert", r"HashSet::<T, S(, A)?>::insert$"), ("set.contains", r"HashSet::<T, S(, A)?>::contains$"),
+              ("get", r"ArenaAssoc.*::get$|::get$"), ("from_elem", r"vec::from_elem$"), ("expect", r"::expect$"),
+              ("err", r"CoverageError::\\w+$"), ("pattern", r"CoveragePattern::\\w+$"), ("matrix-pattern", r"MatrixPattern::\\w+$"),
+              ("space", r"HeadSpace::\\w+$"), ("constructor", r"coverage::Constructor::\\w+$")],
+    "ctors": [],
+    "assign": [],
+    "branch_ifs": True,
+    "branch_matches": True,
+    "returns": True,
+}
+_CV = "zydeco_statics::validate::coverage::"
+GOLDEN["golden_coverage.json"] = (COVERAGE_SPEC, [
+    ("CoverageChecker::validate", _CV + "CoverageChecker::<'a>::validate", "seqwhole"),
+    ("CoverageChecker::validate_computation", _CV + "CoverageChecker::<'a>::validate_computation", "seqwhole"),
+    ("CoverageChecker::validate_match", _CV + "CoverageChecker::<'a>::validate_match", "seqwhole"),
+    ("CoverageChecker::validate_pattern_matrix", _CV + "CoverageChecker::<'a>::validate_pattern_matrix", "seqwhole"),
+    ("CoverageChecker::validate_comatch", _CV + "CoverageChecker::<'a>::validate_comatch", "seqwhole"),
+    ("MatrixPattern::from_typed", _CV + "MatrixPattern::from_typed", "seq"),
+    ("MatrixPattern::head_space", _CV + "MatrixPattern::head_space", "seq"),
+    ("HeadSpace::constructors", _CV + "HeadSpace::constructors", "seq"),
+    ("Constructor::arity", _CV + "Constructor::arity", "seq"),
+    ("Constructor::specialize", _CV + "Constructor::specialize", "seq"),
+    ("Constructor::rebuild", _CV + "Constructor::rebuild", "seqwhole"),
+    ("CoverageMatrix::uncovered", _CV + "CoverageMatrix::<'a>::uncovered", "seqwhole"),
+    ("CoverageMatrix::uncovered_finite", _CV + "CoverageMatrix::<'a>::uncovered_finite", "seqwhole"),
+    ("CoverageMatrix::uncovered_default", _CV + "CoverageMatrix::<'a>::uncovered_default", "seqwhole"),
+])
+
+
 def compute(facts, fname):
     spec, fns = GOLDEN[fname]
     out = {}
@@ -347,6 +397,8 @@ class Seq:
         e = A.ArmEnv()
         e.strip = True
         e.names = dict(env.names)
+        if hasattr(env, "cdepth"):
+            e.cdepth = env.cdepth
         return e
 
     def expr(self, n, env):
@@ -413,11 +465,34 @@ class Seq:
             if self.spec.get("branch_ifs"):
                 self.out.append("}")
             return
+        if k == "MethodCall" and n["name"] in A.ITER_CLOSURE_METHODS and any(H.kind(H.peel(x)) == "Closure" for x in n["args"]):
+            # closure over the elements of the receiver: its element parameter is `(each <receiver>)`
+            self.expr(n["recv"], env)
+            base = "(each %s)" % canon(n["recv"], env)
+            d = getattr(env, "cdepth", 0)
+            for x in n["args"]:
+                clo = H.peel(x)
+                if H.kind(clo) != "Closure":
+                    self.expr(x, env)
+                    continue
+                e2 = self.copy(env)
+                e2.cdepth = d + 1
+                params = clo["params"]
+                idx = 1 if n["name"] in ("fold", "try_fold") and len(params) > 1 else 0
+                for i, p in enumerate(params):
+                    b = base if i == idx else "$c%d.%d" % (d, i)
+                    for l, pth in A.pat_paths(p).items():
+                        e2.names[l] = "%s/%s" % (b, pth) if pth else b
+                self.expr(clo["body"], e2)
+            self.emit_call(n, env)
+            return
         if k == "Closure":
             e2 = self.copy(env)
+            d = getattr(env, "cdepth", 0)
+            e2.cdepth = d + 1
             for i, p in enumerate(n["params"]):
-                for l, pth in A.pat_paths(p, "C%d" % i).items():
-                    e2.names[l] = "$" + pth
+                for l, pth in A.pat_paths(p).items():
+                    e2.names.setdefault(l, "$c%d.%d%s" % (d, i, ("/" + pth) if pth else ""))
             self.expr(n["body"], e2)
             return
         if k in ("Assign", "AssignOp"):
@@ -474,7 +549,7 @@ def extract_seq(facts, fn, spec, pick=None):
         env = seq0.copy(env0)
         env.bind_pat(A.strip_or(a["pat"]))
         s = Seq(spec)
-        table[A.pat_shape(a["pat"])] = {"events": s.run(a["body"], env), "ln": a["ln"]}
+        table[_fresh_key(table, A.pat_shape(a["pat"]))] = {"events": s.run(a["body"], env), "ln": a["ln"]}
     return table
 
 
